@@ -716,7 +716,8 @@ def decode(v):
     return v
 
 
-def construct(spec, args):
+def construct(spec, args, reverse_kw=False):
+    """reverse_kw: the keyword arguments are passed in the opposite order (the same call as far as Python goes)."""
     kw = {}
     for p in spec.params:
         v = args[p]
@@ -726,6 +727,8 @@ def construct(spec, args):
             kw.update(decode(v))
         else:
             kw[p] = decode(v)
+    if reverse_kw:
+        kw = dict(reversed(list(kw.items())))
     obj = spec.cls(**kw)
     if spec.add is not None:
         spec.add(obj, {p: decode(args[p]) for p in spec.content if not is_default(args[p])})
